@@ -959,12 +959,17 @@ impl<R: std::io::Read> FlacChannelReader<R> {
                 .collect())
         } else {
             let channels = usize::from(self.decoder.channel_count().get());
-            match self.decoder.read_frame()? {
-                Some(frame) => {
+            match self.decoder.read_frame().map(|frame| frame.is_some()) {
+                Ok(true) => {
                     self.consumed = 0;
-                    Ok(frame.channels().collect())
+                    Ok(self.decoder.buf.channels().collect())
                 }
-                None => Ok(vec![&[]; channels]),
+                Ok(false) => Ok(vec![&[]; channels]),
+                Err(err) => {
+                    // whatever a failed decode left in the buffer is not valid audio
+                    self.consumed = self.decoder.buf.pcm_frames();
+                    Err(err)
+                }
             }
         }
     }
